@@ -6,7 +6,7 @@ import re
 
 from ..program import AnalysisError, walk_local, dotted
 from ..analysis import Spec, src, const_value
-from ..rules import (canon, cond_equiv, positional_args, substitute_locals, template_sites, GWF, EXC, mpt, need_func, stores_to, is_const, kw,
+from ..rules import (cond_branches, canon, cond_equiv, positional_args, substitute_locals, template_sites, GWF, EXC, mpt, need_func, stores_to, is_const, kw,
                      parent_map, raise_class, substitute_locals)
 from . import common, c18
 from .c12 import _first_exit
@@ -180,15 +180,18 @@ def pr_matching(prog, an, rep):
     f = need_func(an, BR + '.IntegrationBranch.get_pull_request_from_list')
     c = an.cfg(f)
     rets = [n for n in c.nodes.values() if n.kind == 'return' and
-            n.ast.value is not None]
-    src_ok = an.branch_nodes(f, lambda e: src(e) ==
-                             'pr.src_branch != self.name', False) + \
-        an.branch_nodes(f, lambda e: src(e) ==
-                        'pr.src_branch == self.name', True)
-    dst_ok = an.branch_nodes(f, lambda e: src(e).replace('\n', '')
-                             .replace(' ', '') ==
-                             'pr.dst_branch!=self.dst_branch.name', False) \
-        + an.branch_nodes(f, lambda e: src(e) == 'self.dst_branch', False)
+            n.ast.value is not None and not is_const(n.ast.value, None)]
+
+    def eq_sides(text, a_pat, b_pat):
+        sides = text.split(' == ')
+        return len(sides) == 2 and (
+            (re.match(a_pat, sides[0]) and re.match(b_pat, sides[1])) or
+            (re.match(a_pat, sides[1]) and re.match(b_pat, sides[0])))
+    src_ok = cond_branches(an, f, lambda t: eq_sides(
+        t, r'^\w+\.src_branch$', r'^self\.name$'), True)
+    dst_ok = cond_branches(an, f, lambda t: eq_sides(
+        t, r'^\w+\.dst_branch$', r'^self\.dst_branch\.name$'), True) + \
+        cond_branches(an, f, 'self.dst_branch', False)
     rep.floor('C19 returns in get_pull_request_from_list', len(rets), 1)
     for r in rets:
         for label, g in (('same source branch', src_ok),
